@@ -285,6 +285,12 @@ func init() {
 						bad = true // the second operator may legitimately handle the first one's failure
 					}
 				}
+				if strings.HasSuffix(p.Name, "MergeWith(Empty,Empty)[spare cap]") {
+					// the second operator delivers the first one's completion only after its other sources:
+					// a late failure of the first operator (after it completed) cannot be told from an
+					// early one by looking at the final observer
+					bad = true
+				}
 				if !bad {
 					keep = append(keep, p)
 				}
